@@ -45,6 +45,37 @@ type Access struct {
 	Own   []string `json:"own"`   // those of Locks that are fields of the same struct as Field (same object ⇒ same mutex instance)
 	Fresh bool     `json:"fresh"` // object not yet published (built in this function)
 	Pos   string   `json:"pos"`
+	// synchronisation operations (other than mutexes) that DOMINATE the access in its function (executed before it on every
+	// path: same or enclosing block, earlier) / that FOLLOW it (same or enclosing block, later, no return/break/continue in
+	// between; deferred operations included); for unexported helpers one row per call site with the call site's own
+	// pre/post added (one level).
+	Pre  []string `json:"pre"`
+	Post []string `json:"post"`
+	// goroutine roots the function is reachable from: itself when exported / a literal / never called directly,
+	// "go1:f" when started by `go x.f()` on an object that is still unpublished at the go statement (one goroutine per
+	// object), "go:f" for any other go statement; unexported helpers inherit the roots of their callers.
+	Roots []string `json:"roots"`
+
+	seq     int
+	path    []int
+	viaRecv bool
+}
+
+// opEv is one synchronisation operation (or an exit: return / break / continue / goto / panic) inside a function body.
+type opEv struct {
+	name     string
+	seq      int
+	path     []int
+	deferred bool
+}
+
+type callSite struct {
+	caller    *fnInfo
+	callee    string
+	seq       int
+	path      []int
+	recvFresh bool
+	isGo      bool
 }
 
 type fnInfo struct {
@@ -56,6 +87,12 @@ type fnInfo struct {
 	accesses []*Access
 	// call sites inside this function: callee name -> locksets held at each call
 	calls map[string][][]string
+	ops      []*opEv
+	exits    []*opEv
+	sites    []*callSite
+	entryOps []string // operations every execution of a literal has behind it ("once", "load:<atomic field it is published through>")
+	recvObj  types.Object
+	goLit    bool
 }
 
 var (
@@ -65,6 +102,10 @@ var (
 	fns     = map[string]*fnInfo{}
 	objFn   = map[types.Object]string{} // *types.Func -> fn name
 	syncFld = map[string]string{}       // field -> primitive kind
+	// struct types whose values are stored into an atomic.Pointer / atomic.Value / sync.Map (read without a lock afterwards)
+	publishedTypes = map[string]bool{}
+	// `e[:0]` on a slice somebody else may hold (field, element, parameter, package variable): backing-array reuse
+	reuses []string
 )
 
 func rel(p token.Pos) string {
@@ -208,6 +249,94 @@ type walker struct {
 	fresh  map[types.Object]bool // local variables holding an unpublished object
 	litN   *int
 	parent string
+	// happens-before bookkeeping
+	seq       int
+	path      []int
+	regionN   int
+	inDefer   bool
+	nextEntry []string                 // entry operations for the next function literal (sync.OnceFunc argument)
+	lastLit   *fnInfo                  // the literal walked last
+	litVar    map[types.Object]*fnInfo // local variable -> the (once-wrapped) literal it holds
+	// locals that hold a slice taken from somewhere shared (`old := x.f[k]`, `for _, old := range param`)
+	sharedLocal map[types.Object]bool
+}
+
+func (w *walker) markShared(id *ast.Ident, from ast.Expr, elem bool) {
+	if id == nil || id.Name == "_" {
+		return
+	}
+	obj := w.info.Defs[id]
+	if obj == nil {
+		obj = w.info.Uses[id]
+	}
+	if obj == nil {
+		return
+	}
+	if _, isSlice := obj.Type().Underlying().(*types.Slice); !isSlice {
+		return
+	}
+	if w.sharedLocal == nil {
+		w.sharedLocal = map[types.Object]bool{}
+	}
+	if elem { // range value / element of `from`
+		if w.sharedSlice(from) {
+			w.sharedLocal[obj] = true
+		}
+		return
+	}
+	switch from.(type) {
+	case *ast.SelectorExpr, *ast.IndexExpr, *ast.Ident, *ast.StarExpr, *ast.ParenExpr:
+		w.sharedLocal[obj] = w.sharedSlice(from)
+	default:
+		w.sharedLocal[obj] = false
+	}
+}
+
+func (w *walker) pathCopy() []int { return append([]int{}, w.path...) }
+
+func (w *walker) op(name string) {
+	w.seq++
+	w.fn.ops = append(w.fn.ops, &opEv{name: name, seq: w.seq, path: w.pathCopy(), deferred: w.inDefer})
+}
+
+func (w *walker) exit() {
+	w.seq++
+	w.fn.exits = append(w.fn.exits, &opEv{name: "exit", seq: w.seq, path: w.pathCopy()})
+}
+
+// region runs f inside a new conditional region (if/else body, loop body, case clause, select clause)
+func (w *walker) region(f func()) {
+	w.regionN++
+	old := w.path
+	w.path = append(w.pathCopy(), w.regionN)
+	f()
+	w.path = old
+}
+
+// chanName names the channel / waitgroup / atomic an operation works on: a tracked field by its qualified name,
+// a local by "$name", ctx.Done() by "ctx".
+func (w *walker) syncName(e ast.Expr) string {
+	switch x := e.(type) {
+	case *ast.ParenExpr:
+		return w.syncName(x.X)
+	case *ast.SelectorExpr:
+		if q, v := fieldOf(w.info, x); v != nil {
+			return q
+		}
+		return "$" + x.Sel.Name
+	case *ast.Ident:
+		return "$" + x.Name
+	case *ast.CallExpr:
+		if s, ok := x.Fun.(*ast.SelectorExpr); ok && s.Sel.Name == "Done" {
+			return "ctx"
+		}
+		if s, ok := x.Fun.(*ast.SelectorExpr); ok {
+			return "$" + s.Sel.Name + "()"
+		}
+	case *ast.UnaryExpr:
+		return w.syncName(x.X)
+	}
+	return "$?"
 }
 
 func (w *walker) lockName(sel *ast.SelectorExpr) string {
@@ -244,6 +373,59 @@ func (w *walker) privateCopy(sel *ast.SelectorExpr) bool {
 	return isStruct
 }
 
+// sharedSlice: may somebody else hold the slice e evaluates to? (a field, an element of one, a parameter, a package variable;
+// a local is shared when it is not defined in this function body, i.e. captured by a literal)
+func (w *walker) sharedSlice(e ast.Expr) bool {
+	switch x := e.(type) {
+	case *ast.ParenExpr:
+		return w.sharedSlice(x.X)
+	case *ast.SelectorExpr:
+		if sel, ok := w.info.Selections[x]; ok && sel.Kind() == types.FieldVal {
+			return true
+		}
+		if v, ok := w.info.Uses[x.Sel].(*types.Var); ok && v.Pkg() != nil && v.Parent() == v.Pkg().Scope() {
+			return true
+		}
+		return false
+	case *ast.IndexExpr:
+		return true
+	case *ast.StarExpr:
+		return true
+	case *ast.Ident:
+		v, ok := w.info.Uses[x].(*types.Var)
+		if !ok || v.Pkg() == nil {
+			return false
+		}
+		if v.Parent() == v.Pkg().Scope() || w.sharedLocal[v] {
+			return true
+		}
+		var body ast.Node
+		var ft *ast.FuncType
+		switch d := w.fn.decl.(type) {
+		case *ast.FuncDecl:
+			body, ft = d.Body, d.Type
+		case *ast.FuncLit:
+			body, ft = d.Body, d.Type
+		}
+		if ft != nil && ft.Params != nil {
+			for _, fl := range ft.Params.List {
+				for _, nm := range fl.Names {
+					if w.info.Defs[nm] == v {
+						return true
+					}
+				}
+			}
+		}
+		if body != nil && (v.Pos() < body.Pos() || v.Pos() > body.End()) {
+			// captured from an enclosing function: shared when this literal runs on another goroutine (`go func`) or is
+			// handed out to be called later (once-wrapped / published through an atomic); a literal that is simply called
+			// back synchronously works on its caller's locals
+			return w.fn.goLit || len(w.fn.entryOps) > 0
+		}
+	}
+	return false
+}
+
 func (w *walker) record(sel *ast.SelectorExpr, write bool) { w.record2(sel, write, false) }
 
 func (w *walker) record2(sel *ast.SelectorExpr, write bool, elemWrite bool) {
@@ -264,7 +446,13 @@ func (w *walker) record2(sel *ast.SelectorExpr, write bool, elemWrite bool) {
 			fresh = true
 		}
 	}
-	w.fn.accesses = append(w.fn.accesses, &Access{Field: q, Func: w.fn.name, Write: write, Locks: w.heldCopy(), Fresh: fresh, Pos: rel(sel.Pos())})
+	viaRecv := false
+	if id := baseIdent(sel.X); id != nil && w.fn.recvObj != nil && w.info.Uses[id] == w.fn.recvObj {
+		viaRecv = true
+	}
+	w.seq++
+	w.fn.accesses = append(w.fn.accesses, &Access{Field: q, Func: w.fn.name, Write: write, Locks: w.heldCopy(), Fresh: fresh, Pos: rel(sel.Pos()),
+		seq: w.seq, path: w.pathCopy(), viaRecv: viaRecv})
 }
 
 func (w *walker) writeTarget(e ast.Expr) {
@@ -303,6 +491,15 @@ func (w *walker) expr(e ast.Expr) {
 	case *ast.FuncLit:
 		w.funcLit(x, false)
 	case *ast.UnaryExpr:
+		if x.Op == token.ARROW {
+			w.expr(x.X)
+			if n := w.syncName(x.X); n == "ctx" {
+				w.op("ctxdone")
+			} else {
+				w.op("recv:" + n)
+			}
+			return
+		}
 		if x.Op == token.AND {
 			if s, ok := x.X.(*ast.SelectorExpr); ok {
 				if _, v := fieldOf(w.info, s); v != nil && syncKind(v.Type()) == "" {
@@ -325,6 +522,13 @@ func (w *walker) expr(e ast.Expr) {
 	case *ast.IndexListExpr:
 		w.expr(x.X)
 	case *ast.SliceExpr:
+		if x.Low == nil && x.High != nil && !x.Slice3 {
+			if bl, ok := x.High.(*ast.BasicLit); ok && bl.Value == "0" && w.sharedSlice(x.X) {
+				var b strings.Builder
+				_ = printer.Fprint(&b, fset, x)
+				reuses = append(reuses, fmt.Sprintf("%s: %s", w.fn.name, strings.Join(strings.Fields(b.String()), " ")))
+			}
+		}
 		w.expr(x.X)
 		w.expr(x.Low)
 		w.expr(x.High)
@@ -348,7 +552,9 @@ func (w *walker) expr(e ast.Expr) {
 func (w *walker) funcLit(l *ast.FuncLit, async bool) {
 	*w.litN++
 	name := fmt.Sprintf("%s#%d", w.parent, *w.litN)
-	fi := &fnInfo{name: name, decl: l, pkg: w.fn.pkg, isLit: true, calls: map[string][][]string{}}
+	fi := &fnInfo{name: name, decl: l, pkg: w.fn.pkg, isLit: true, calls: map[string][][]string{}, entryOps: w.nextEntry, goLit: async}
+	w.nextEntry = nil
+	w.lastLit = fi
 	fns[name] = fi
 	// a literal runs either later/elsewhere (go, callbacks stored for later) or synchronously; it is
 	// analysed with an EMPTY entry lockset (conservative) but keeps the freshness knowledge only when
@@ -359,7 +565,7 @@ func (w *walker) funcLit(l *ast.FuncLit, async bool) {
 			fr[k] = v
 		}
 	}
-	sub := &walker{fn: fi, info: w.info, fresh: fr, litN: w.litN, parent: w.parent}
+	sub := &walker{fn: fi, info: w.info, fresh: fr, litN: w.litN, parent: w.parent, litVar: map[types.Object]*fnInfo{}}
 	sub.block(l.Body)
 }
 
@@ -397,6 +603,22 @@ func (w *walker) call(c *ast.CallExpr) {
 			return
 		}
 	}
+	// builtin copy(x.f, …) / clear(x.f): element-level write into the slice / map held in f
+	if id, ok := c.Fun.(*ast.Ident); ok && (id.Name == "copy" || id.Name == "clear") && len(c.Args) >= 1 {
+		if _, isBuiltin := w.info.Uses[id].(*types.Builtin); isBuiltin {
+			dst := c.Args[0]
+			if se, ok := dst.(*ast.SliceExpr); ok {
+				dst = se.X
+			}
+			if s, ok := dst.(*ast.SelectorExpr); ok {
+				w.record2(s, true, true)
+			} else if w.sharedSlice(dst) {
+				var b strings.Builder
+				_ = printer.Fprint(&b, fset, c)
+				reuses = append(reuses, fmt.Sprintf("%s: %s", w.fn.name, strings.Join(strings.Fields(b.String()), " ")))
+			}
+		}
+	}
 	// callee bookkeeping (for crediting caller-held locks to unexported helpers)
 	var calleeObj types.Object
 	switch f := c.Fun.(type) {
@@ -405,14 +627,33 @@ func (w *walker) call(c *ast.CallExpr) {
 	case *ast.SelectorExpr:
 		calleeObj = w.info.Uses[f.Sel]
 	}
+	calleeName := ""
 	if fo, ok := calleeObj.(*types.Func); ok {
 		if name, ok := objFn[fo.Origin()]; ok {
 			w.fn.calls[name] = append(w.fn.calls[name], w.heldCopy())
+			calleeName = name
+		}
+		if fo.Pkg() != nil && fo.Pkg().Path() == "sync" && (fo.Name() == "OnceFunc" || fo.Name() == "OnceValue" || fo.Name() == "OnceValues") {
+			w.nextEntry = []string{"once"}
 		}
 	}
 	w.expr(c.Fun)
 	for _, a := range c.Args {
 		w.expr(a)
+	}
+	w.nextEntry = nil
+	w.syncOp(c, calleeObj)
+	if calleeName != "" {
+		w.seq++
+		cs := &callSite{caller: w.fn, callee: calleeName, seq: w.seq, path: w.pathCopy()}
+		if sel, ok := c.Fun.(*ast.SelectorExpr); ok {
+			if id := baseIdent(sel.X); id != nil {
+				if obj := w.info.Uses[id]; obj != nil && w.fresh[obj] {
+					cs.recvFresh = true
+				}
+			}
+		}
+		w.fn.sites = append(w.fn.sites, cs)
 	}
 	// an object handed to a call may be retained / shared by the callee: it is no longer unpublished
 	for _, a := range c.Args {
@@ -433,6 +674,86 @@ func (w *walker) call(c *ast.CallExpr) {
 	}
 }
 
+// syncOp records the synchronisation operation a call performs, if any: close(ch), atomic / sync.Map Store/Load/Swap/
+// CompareAndSwap/Delete on a field, WaitGroup Wait/Done, a call of a method named Forward (returns after its pumps: wg.Wait),
+// panic (an exit).
+func (w *walker) syncOp(c *ast.CallExpr, calleeObj types.Object) {
+	if id, ok := c.Fun.(*ast.Ident); ok {
+		if _, isBuiltin := w.info.Uses[id].(*types.Builtin); isBuiltin {
+			switch id.Name {
+			case "close":
+				if len(c.Args) == 1 {
+					w.op("close:" + w.syncName(c.Args[0]))
+				}
+			case "panic":
+				w.exit()
+			}
+		}
+		return
+	}
+	sel, ok := c.Fun.(*ast.SelectorExpr)
+	if !ok {
+		return
+	}
+	if sel.Sel.Name == "Forward" {
+		w.op("call:Forward")
+		return
+	}
+	tv, ok := w.info.Types[sel.X]
+	if !ok {
+		return
+	}
+	kind := ""
+	if n := namedOf(tv.Type); n != nil && n.Obj().Pkg() != nil {
+		switch n.Obj().Pkg().Path() {
+		case "sync":
+			kind = n.Obj().Name()
+		case "sync/atomic":
+			kind = "atomic"
+		}
+	}
+	name := w.syncName(sel.X)
+	switch kind {
+	case "WaitGroup":
+		switch sel.Sel.Name {
+		case "Wait":
+			w.op("wait:" + name)
+		case "Done":
+			w.op("done:" + name)
+		}
+	case "atomic", "Map":
+		switch sel.Sel.Name {
+		case "Store", "Delete":
+			w.op("store:" + name)
+			// the type of the stored value is PUBLISHED to lock-free readers
+			if sel.Sel.Name == "Store" && len(c.Args) > 0 {
+				if atv, ok := w.info.Types[c.Args[len(c.Args)-1]]; ok {
+					if n := namedOf(atv.Type); n != nil {
+						if q, ok := structs[n.Origin()]; ok {
+							publishedTypes[q] = true
+						}
+					}
+				}
+			}
+			// a once-wrapped literal published through this atomic can only be called by somebody who loaded it
+			if len(c.Args) == 1 {
+				if u, ok := c.Args[0].(*ast.UnaryExpr); ok && u.Op == token.AND {
+					if id, ok := u.X.(*ast.Ident); ok {
+						if lit := w.litVar[w.info.Uses[id]]; lit != nil {
+							lit.entryOps = append(lit.entryOps, "load:"+name)
+						}
+					}
+				}
+			}
+		case "Load", "Range":
+			w.op("load:" + name)
+		case "Swap", "CompareAndSwap", "LoadOrStore", "LoadAndDelete", "CompareAndDelete", "Add", "And", "Or":
+			w.op("load:" + name)
+			w.op("store:" + name)
+		}
+	}
+}
+
 func (w *walker) stmt(s ast.Stmt) {
 	switch x := s.(type) {
 	case nil:
@@ -441,8 +762,15 @@ func (w *walker) stmt(s ast.Stmt) {
 	case *ast.ExprStmt:
 		w.expr(x.X)
 	case *ast.AssignStmt:
-		for _, r := range x.Rhs {
+		lits := make([]*fnInfo, len(x.Rhs))
+		for i, r := range x.Rhs {
+			w.lastLit = nil
 			w.expr(r)
+			if ce, ok := r.(*ast.CallExpr); ok && len(ce.Args) == 1 && w.lastLit != nil && len(w.lastLit.entryOps) > 0 {
+				if _, isLit := ce.Args[0].(*ast.FuncLit); isLit {
+					lits[i] = w.lastLit
+				}
+			}
 		}
 		for i, l := range x.Lhs {
 			if id, ok := l.(*ast.Ident); ok {
@@ -450,6 +778,14 @@ func (w *walker) stmt(s ast.Stmt) {
 				obj := w.info.Defs[id]
 				if obj == nil {
 					obj = w.info.Uses[id]
+				}
+				if obj != nil && len(x.Lhs) == len(x.Rhs) && lits[i] != nil {
+					w.litVar[obj] = lits[i]
+				}
+				if len(x.Lhs) == len(x.Rhs) {
+					w.markShared(id, x.Rhs[i], false)
+				} else if len(x.Rhs) == 1 && i == 0 { // v, ok := m[k]
+					w.markShared(id, x.Rhs[0], false)
 				}
 				if obj != nil && len(x.Lhs) == len(x.Rhs) {
 					w.fresh[obj] = isFreshExpr(w.info, x.Rhs[i])
@@ -481,8 +817,33 @@ func (w *walker) stmt(s ast.Stmt) {
 		// everything reachable from the go statement runs on another goroutine: objects passed to it are published
 		if l, ok := x.Call.Fun.(*ast.FuncLit); ok {
 			w.funcLit(l, true)
+			w.op("go:" + w.lastLit.name)
 		} else {
 			w.expr(x.Call.Fun)
+			var calleeObj types.Object
+			switch f := x.Call.Fun.(type) {
+			case *ast.Ident:
+				calleeObj = w.info.Uses[f]
+			case *ast.SelectorExpr:
+				calleeObj = w.info.Uses[f.Sel]
+			}
+			gname := "?"
+			if fo, ok := calleeObj.(*types.Func); ok {
+				if name, ok := objFn[fo.Origin()]; ok {
+					gname = name
+					w.seq++
+					cs := &callSite{caller: w.fn, callee: name, seq: w.seq, path: w.pathCopy(), isGo: true}
+					if sel, ok := x.Call.Fun.(*ast.SelectorExpr); ok {
+						if id := baseIdent(sel.X); id != nil {
+							if obj := w.info.Uses[id]; obj != nil && w.fresh[obj] {
+								cs.recvFresh = true
+							}
+						}
+					}
+					w.fn.sites = append(w.fn.sites, cs)
+				}
+			}
+			w.op("go:" + gname)
 		}
 		for _, a := range x.Call.Args {
 			w.expr(a)
@@ -500,24 +861,34 @@ func (w *walker) stmt(s ast.Stmt) {
 		if l, ok := x.Call.Fun.(*ast.FuncLit); ok {
 			w.funcLit(l, false)
 		} else {
+			w.inDefer = true
 			w.call(x.Call)
+			w.inDefer = false
 		}
 	case *ast.ReturnStmt:
 		for _, r := range x.Results {
 			w.expr(r)
 		}
+		w.exit()
+	case *ast.BranchStmt:
+		w.exit()
 	case *ast.IfStmt:
 		w.stmt(x.Init)
 		w.expr(x.Cond)
-		w.block(x.Body)
-		w.stmt(x.Else)
+		w.region(func() { w.block(x.Body) })
+		w.region(func() { w.stmt(x.Else) })
 	case *ast.ForStmt:
 		w.stmt(x.Init)
 		w.expr(x.Cond)
-		w.stmt(x.Post)
-		w.block(x.Body)
+		w.region(func() {
+			w.block(x.Body)
+			w.stmt(x.Post)
+		})
 	case *ast.RangeStmt:
 		w.expr(x.X)
+		if id, ok := x.Value.(*ast.Ident); ok {
+			w.markShared(id, x.X, true)
+		}
 		if x.Key != nil {
 			if _, ok := x.Key.(*ast.Ident); !ok {
 				w.writeTarget(x.Key)
@@ -528,7 +899,7 @@ func (w *walker) stmt(s ast.Stmt) {
 				w.writeTarget(x.Value)
 			}
 		}
-		w.block(x.Body)
+		w.region(func() { w.block(x.Body) })
 	case *ast.SwitchStmt:
 		w.stmt(x.Init)
 		w.expr(x.Tag)
@@ -541,19 +912,25 @@ func (w *walker) stmt(s ast.Stmt) {
 		for _, e := range x.List {
 			w.expr(e)
 		}
-		for _, st := range x.Body {
-			w.stmt(st)
-		}
+		w.region(func() {
+			for _, st := range x.Body {
+				w.stmt(st)
+			}
+		})
 	case *ast.SelectStmt:
 		w.block(x.Body)
 	case *ast.CommClause:
-		w.stmt(x.Comm)
-		for _, st := range x.Body {
-			w.stmt(st)
-		}
+		// the clause body runs only when this clause's communication happened: the receive DOMINATES the body
+		w.region(func() {
+			w.stmt(x.Comm)
+			for _, st := range x.Body {
+				w.stmt(st)
+			}
+		})
 	case *ast.SendStmt:
 		w.expr(x.Chan)
 		w.expr(x.Value)
+		w.op("send:" + w.syncName(x.Chan))
 	case *ast.LabeledStmt:
 		w.stmt(x.Stmt)
 	}
@@ -669,7 +1046,10 @@ func main() {
 			continue
 		}
 		cnt := 0
-		w := &walker{fn: fi, info: fi.pkg.TypesInfo, fresh: map[types.Object]bool{}, litN: &cnt, parent: n}
+		if fd.Recv != nil && len(fd.Recv.List) == 1 && len(fd.Recv.List[0].Names) == 1 {
+			fi.recvObj = fi.pkg.TypesInfo.Defs[fd.Recv.List[0].Names[0]]
+		}
+		w := &walker{fn: fi, info: fi.pkg.TypesInfo, fresh: map[types.Object]bool{}, litN: &cnt, parent: n, litVar: map[types.Object]*fnInfo{}}
 		w.block(fd.Body)
 	}
 	// pass 3: credit caller-held locks to unexported, non-literal functions: entry lockset =
@@ -728,6 +1108,148 @@ func main() {
 			break
 		}
 	}
+	// pass 3b: happens-before context of every access — dominating / following synchronisation operations, goroutine roots,
+	// one row per call site for unexported helpers.
+	isPrefix := func(p, q []int) bool {
+		if len(p) > len(q) {
+			return false
+		}
+		for i := range p {
+			if p[i] != q[i] {
+				return false
+			}
+		}
+		return true
+	}
+	preOf := func(fi *fnInfo, seq int, path []int) []string {
+		out := append([]string{}, fi.entryOps...)
+		for _, o := range fi.ops {
+			if !o.deferred && o.seq < seq && isPrefix(o.path, path) {
+				out = append(out, o.name)
+			}
+		}
+		return out
+	}
+	postOf := func(fi *fnInfo, seq int, path []int) []string {
+		var out []string
+		for _, o := range fi.ops {
+			if !isPrefix(o.path, path) {
+				continue
+			}
+			if o.deferred && o.seq < seq {
+				out = append(out, o.name)
+				continue
+			}
+			if o.seq <= seq {
+				continue
+			}
+			blocked := false
+			for _, e := range fi.exits {
+				if e.seq > seq && e.seq < o.seq && isPrefix(o.path, e.path) {
+					blocked = true
+				}
+			}
+			if !blocked {
+				out = append(out, o.name)
+			}
+		}
+		return out
+	}
+	uniqSorted := func(xs []string) []string {
+		m := map[string]bool{}
+		for _, x := range xs {
+			m[x] = true
+		}
+		out := []string{}
+		for x := range m {
+			out = append(out, x)
+		}
+		sort.Strings(out)
+		return out
+	}
+	names = names[:0]
+	for n := range fns {
+		names = append(names, n)
+	}
+	sort.Strings(names)
+	sitesOf := map[string][]*callSite{}
+	for _, n := range names {
+		for _, cs := range fns[n].sites {
+			sitesOf[cs.callee] = append(sitesOf[cs.callee], cs)
+		}
+	}
+	goRoot := func(cs *callSite) string {
+		if cs.recvFresh {
+			return "go1:" + cs.callee
+		}
+		return "go:" + cs.callee
+	}
+	roots := map[string][]string{}
+	for _, n := range names {
+		fi := fns[n]
+		switch {
+		case fi.goLit:
+			roots[n] = []string{"go:" + n}
+		case fi.exported || fi.isLit || len(sitesOf[n]) == 0:
+			roots[n] = []string{n}
+		}
+	}
+	for iter := 0; iter < 12; iter++ {
+		changed := false
+		for _, n := range names {
+			fi := fns[n]
+			if fi.exported || fi.isLit || len(sitesOf[n]) == 0 {
+				continue
+			}
+			var rs []string
+			for _, cs := range sitesOf[n] {
+				if cs.isGo {
+					rs = append(rs, goRoot(cs))
+				} else {
+					rs = append(rs, roots[cs.caller.name]...)
+				}
+			}
+			rs = uniqSorted(rs)
+			if strings.Join(rs, ",") != strings.Join(roots[n], ",") {
+				roots[n] = rs
+				changed = true
+			}
+		}
+		if !changed {
+			break
+		}
+	}
+	for _, n := range names {
+		fi := fns[n]
+		var expanded []*Access
+		for _, a := range fi.accesses {
+			pre, post := preOf(fi, a.seq, a.path), postOf(fi, a.seq, a.path)
+			if fi.exported || fi.isLit || len(sitesOf[n]) == 0 {
+				a.Pre, a.Post, a.Roots = uniqSorted(pre), uniqSorted(post), roots[n]
+				expanded = append(expanded, a)
+				continue
+			}
+			for _, cs := range sitesOf[n] {
+				b := *a
+				b.Locks = append([]string{}, a.Locks...)
+				if cs.isGo {
+					b.Pre = uniqSorted(append(append([]string{"spawned"}, preOf(cs.caller, cs.seq, cs.path)...), pre...))
+					b.Post = uniqSorted(post)
+					b.Roots = []string{goRoot(cs)}
+				} else {
+					b.Pre = uniqSorted(append(preOf(cs.caller, cs.seq, cs.path), pre...))
+					b.Post = uniqSorted(append(postOf(cs.caller, cs.seq, cs.path), post...))
+					b.Roots = roots[cs.caller.name]
+					if cs.recvFresh && a.viaRecv {
+						b.Fresh = true
+					}
+				}
+				expanded = append(expanded, &b)
+			}
+		}
+		fi.accesses = expanded
+	}
+
 	var all []*Access
 	names = names[:0]
 	for n := range fns {
@@ -768,7 +1290,8 @@ func main() {
 	seen := map[string]bool{}
 	var uniq []*Access
 	for _, a := range all {
-		k := fmt.Sprintf("%s|%s|%v|%s|%v", a.Field, a.Func, a.Write, strings.Join(a.Locks, ","), a.Fresh)
+		k := fmt.Sprintf("%s|%s|%v|%s|%v|%s|%s|%s", a.Field, a.Func, a.Write, strings.Join(a.Locks, ","), a.Fresh,
+			strings.Join(a.Pre, ","), strings.Join(a.Post, ","), strings.Join(a.Roots, ","))
 		if !seen[k] {
 			seen[k] = true
 			uniq = append(uniq, a)
@@ -1020,7 +1543,7 @@ func main() {
 	var sb strings.Builder
 	sb.WriteString("/- REGENERATED on every run by /verif/extract/lockset from the grpcbridge sources. Do not edit. -/\n")
 	sb.WriteString("namespace GB.Generated\n\n")
-	sb.WriteString("structure Access where\n  field : String\n  fn : String\n  write : Bool\n  locks : List String\n  own : List String\n  fresh : Bool\nderiving Repr, DecidableEq\n\n")
+	sb.WriteString("structure Access where\n  field : String\n  fn : String\n  write : Bool\n  locks : List String\n  own : List String\n  fresh : Bool\n  pre : List String\n  post : List String\n  roots : List String\nderiving Repr, DecidableEq\n\n")
 	sb.WriteString(fmt.Sprintf("/-- type-check / load errors while extracting (must be 0) -/\ndef locksetLoadErrors : Nat := %d\n\n", loadErrs))
 	sb.WriteString("/-- accesses to plain (non-synchronised) fields that are written after publication somewhere -/\n")
 	sb.WriteString("def accesses : List Access := [\n")
@@ -1029,7 +1552,8 @@ func main() {
 		if i == len(live)-1 {
 			sep = ""
 		}
-		sb.WriteString(fmt.Sprintf("  ⟨%s, %s, %v, %s, %s, %v⟩%s -- %s\n", leanStr(a.Field), leanStr(a.Func), a.Write, leanStrs(a.Locks), leanStrs(a.Own), a.Fresh, sep, a.Pos))
+		sb.WriteString(fmt.Sprintf("  ⟨%s, %s, %v, %s, %s, %v, %s, %s, %s⟩%s -- %s\n", leanStr(a.Field), leanStr(a.Func), a.Write, leanStrs(a.Locks), leanStrs(a.Own), a.Fresh,
+			leanStrs(a.Pre), leanStrs(a.Post), leanStrs(a.Roots), sep, a.Pos))
 	}
 	sb.WriteString("]\n\n")
 	var sf []string
@@ -1057,6 +1581,104 @@ func main() {
 	sb.WriteString("def globalAliases : List String := " + leanStrs(aliases) + "\n\n")
 	sb.WriteString("/-- `x = append(y, …)` with y a field / package variable / parameter, x ≠ y and y's capacity not clipped: the result may\n    share y's backing array with y and with other results (all non-test packages of the repository) -/\n")
 	sb.WriteString("def aliasingAppends : List String := " + leanStrs(appends) + "\n\n")
+	// ---- published objects must be immutable: writes (field or element level) to objects of a published type without
+	// a mutex of the object itself, backing-array reuse of shared slices, aliasing appends (D34)
+	// …closed under "reachable through a field" (pointers, slices, maps, arrays), plus the element types the pattern router
+	// publishes through container/list's `any` values
+	for _, extra := range []string{"routing.targetPatternRoutes", "routing.patternRoute"} {
+		publishedTypes[extra] = true
+	}
+	for changed := true; changed; {
+		changed = false
+		for n, q := range structs {
+			if !publishedTypes[q] {
+				continue
+			}
+			st, ok := n.Underlying().(*types.Struct)
+			if !ok {
+				continue
+			}
+			for i := 0; i < st.NumFields(); i++ {
+				var visit func(t types.Type, depth int)
+				visit = func(t types.Type, depth int) {
+					if depth > 6 {
+						return
+					}
+					switch x := t.(type) {
+					case *types.Pointer:
+						visit(x.Elem(), depth+1)
+					case *types.Slice:
+						visit(x.Elem(), depth+1)
+					case *types.Array:
+						visit(x.Elem(), depth+1)
+					case *types.Map:
+						visit(x.Key(), depth+1)
+						visit(x.Elem(), depth+1)
+					case *types.Named:
+						if q2, ok := structs[x.Origin()]; ok && !publishedTypes[q2] {
+							publishedTypes[q2] = true
+							changed = true
+						}
+					}
+				}
+				visit(st.Field(i).Type(), 0)
+			}
+		}
+	}
+	var pubT []string
+	for t := range publishedTypes {
+		pubT = append(pubT, t)
+	}
+	sort.Strings(pubT)
+	var ppw []string
+	for _, a := range uniq {
+		owner := a.Field[:strings.LastIndex(a.Field, ".")]
+		if a.Write && !a.Fresh && publishedTypes[owner] && len(a.Own) == 0 {
+			ppw = append(ppw, "write: "+a.Field+" in "+a.Func)
+		}
+	}
+	for _, r := range reuses {
+		ppw = append(ppw, "reuse: "+r)
+	}
+	for _, a := range appends {
+		ppw = append(ppw, "append: "+a)
+	}
+	ppw = uniqSorted(ppw)
+	sb.WriteString("/-- struct types whose values are stored into an atomic.Pointer / atomic.Value / sync.Map and read lock-free -/\n")
+	sb.WriteString("def publishedTypes : List String := " + leanStrs(pubT) + "\n\n")
+	sb.WriteString("/-- writes that can reach memory already published to lock-free readers: `write:` a field / element write on a\n    non-fresh object of a published type without a mutex of that object; `reuse:` `e[:0]` on a slice somebody else may hold\n    (retained backing array); `append:` the aliasing appends above -/\n")
+	sb.WriteString("def postPublicationWrites : List String := " + leanStrs(ppw) + "\n\n")
+	var gj []string
+	for _, n := range names {
+		fi := fns[n]
+		if fi.isLit {
+			continue
+		}
+		var lits []string
+		for _, m := range names {
+			if strings.HasPrefix(m, n+"#") && fns[m].goLit {
+				var d []string
+				for _, o := range fns[m].ops {
+					if o.deferred {
+						d = append(d, o.name)
+					}
+				}
+				lits = append(lits, "("+leanStr(m)+", "+leanStrs(d)+")")
+			}
+		}
+		if len(lits) == 0 {
+			continue
+		}
+		var d []string
+		for _, o := range fi.ops {
+			if o.deferred {
+				d = append(d, o.name)
+			}
+		}
+		gj = append(gj, "("+leanStr(n)+", "+leanStrs(d)+", ["+strings.Join(lits, ", ")+"])")
+	}
+	sb.WriteString("/-- functions that start goroutines with `go func(){…}()`: (function, its deferred synchronisation operations,\n    [(literal, the literal's deferred synchronisation operations)]) -/\n")
+	sb.WriteString("def goJoins : List (String × List String × List (String × List String)) := [\n  " + strings.Join(gj, ",\n  ") + "]\n\n")
 	sb.WriteString("end GB.Generated\n")
 	if *out != "" {
 		old, _ := os.ReadFile(*out)
@@ -1068,7 +1690,8 @@ func main() {
 		}
 	}
 	if *js != "" {
-		b, _ := json.MarshalIndent(map[string]any{"accesses": live, "syncFields": syncFld, "immutableFields": im, "loadErrors": loadErrs}, "", " ")
+		b, _ := json.MarshalIndent(map[string]any{"accesses": live, "syncFields": syncFld, "immutableFields": im, "loadErrors": loadErrs,
+			"postPublicationWrites": ppw, "publishedTypes": pubT}, "", " ")
 		_ = os.WriteFile(*js, b, 0o644)
 	}
 }
